@@ -29,9 +29,9 @@ Fixpoint enc_of (t : ty) (x : item) (v : val) {struct t} : Prop :=
   | TTime => exists xs s k, arr_enc x xs /\ Forall2 uint_enc xs [s; k] /\ v = VL [VN s; VN k]
   | TArr e => exists xs vs, arr_enc x xs /\ Forall2 (enc_of e) xs vs /\ v = VL vs
   | TIdx => exists xs ns, arr_enc x xs /\ Forall2 uint_enc xs ns /\ v = VL (map (fun n => VN (n mod 2 ^ 32)) ns)
-  | TMap _ fs => exists es, map_enc x es /\ Forall (fun e => int_enc (e_kx e) (e_key e) /\ fenc fs O (e_key e) (e_vx e) (e_upd e)) es /\
-                            mand_ok fs (fold_left apply_e es (init_rec fs)) = true /\
-                            v = VR (fill_always fs (fold_left apply_e es (init_rec fs)))
+  | TMap _ accs fs => exists es, map_enc x es /\ Forall (fun e => int_enc (e_kx e) (e_key e) /\ fenc fs O (e_key e) (e_vx e) (e_upd e)) es /\
+                            mand_ok fs (fold_left (apply_e accs) es (init_rec fs)) = true /\
+                            v = VR (fill_always fs (fold_left (apply_e accs) es (init_rec fs)))
   end
 (* the member a key denotes: a known key must carry an encoding of a value of that member's type, an unknown key any well-formed item *)
 with fenc (fs : fields) (i : nat) (key : Z) (vx : item) (upd : option (nat * val)) {struct fs} : Prop :=
@@ -68,9 +68,9 @@ Proof.
   destruct neg; [rewrite neg_of_small|rewrite to_i64_small]; auto.
 Qed.
 
-Lemma map_loop_indef rdk sk : forall es g rec rest, Forall (entry_ok rdk sk) es ->
+Lemma map_loop_indef accs rdk sk : forall es g rec rest, Forall (entry_ok rdk sk) es ->
   Forall (fun e => exists b r, ser (e_kx e) = b :: r /\ b <> 255) es -> (length es < g)%nat ->
-  forall n, run (map_loop rdk sk g n true rec) (flat_map ser_entry es ++ 255 :: rest) = (inl (fold_left apply_e es rec), rest).
+  forall n, run (map_loop accs rdk sk g n true rec) (flat_map ser_entry es ++ 255 :: rest) = (inl (fold_left (apply_e accs) es rec), rest).
 Proof.
   induction es as [|e es IH]; intros g rec rest HF Hb Hg n; inversion HF as [|? ? He HF']; subst.
   - destruct g as [|g]; [cbn in Hg; lia|]. cbn [map_loop]. rewrite andb_false_r. cbn [flat_map app].
@@ -229,7 +229,7 @@ Proof.
                 = run (xs0 <- arr_loop rd g (fst st) (snd st) [] ;; Ret (VL xs0))) by reflexivity.
       rewrite run_bind. rewrite run_bind in Hrun. destruct (run read_array_start (ser x ++ rest)) as [[st|er] r1]; [|discriminate].
       rewrite Hres, run_bind, Hrun. reflexivity.
-  - (* TMap *) intros sk fs IH x v Hd (es & Hm & HF & Hmand & ->).
+  - (* TMap *) intros sk accs fs IH x v Hd (es & Hm & HF & Hmand & ->).
     cbn [desc_ok] in Hd. apply andb_true_iff in Hd. destruct Hd as [Hd Hfo]. apply andb_true_iff in Hd. destruct Hd as [Hnd Hfl].
     assert (Hlen : forall g, (length (ser x) < g)%nat -> (length (flat_map ser_entry es) < g)%nat).
     { intros g Hg. rewrite fold_left_length_entries. destruct Hm as [(w & -> & _)| -> ]; cbn [ser] in Hg; [rewrite app_length in Hg; lia|].
@@ -283,15 +283,24 @@ Proof.
   - destruct i as [|i], j as [|j]; cbn [set_nth]; try reflexivity; [congruence|]. f_equal. apply IH. congruence.
 Qed.
 
-Lemma apply_e_comm r a b : (forall i v j w, e_upd a = Some (i, v) -> e_upd b = Some (j, w) -> i <> j) ->
-  apply_e (apply_e r a) b = apply_e (apply_e r b) a.
+Lemma nth_set_nth_neq {A} : forall (l : list A) i j y d, i <> j -> nth i (set_nth j y l) d = nth i l d.
 Proof.
-  intros H. unfold apply_e. destruct (e_upd a) as [[i v]|], (e_upd b) as [[j w]|]; try reflexivity.
-  apply set_nth_comm. intros E. apply (H i v j w eq_refl eq_refl). congruence.
+  induction l as [|a l IH]; intros i j y d Hne.
+  - destruct j; reflexivity.
+  - destruct i as [|i], j as [|j]; cbn [set_nth nth]; try reflexivity; [congruence|]. apply IH. congruence.
 Qed.
 
-Theorem fold_apply_perm : forall es es', Permutation es es' -> NoDup (known_slots es) ->
-  forall r, fold_left apply_e es r = fold_left apply_e es' r.
+Lemma apply_e_comm accs r a b : (forall i v j w, e_upd a = Some (i, v) -> e_upd b = Some (j, w) -> i <> j) ->
+  apply_e accs (apply_e accs r a) b = apply_e accs (apply_e accs r b) a.
+Proof.
+  intros H. unfold apply_e. destruct (e_upd a) as [[i v]|], (e_upd b) as [[j w]|]; try reflexivity.
+  assert (Hne : i <> j) by (apply (H i v j w eq_refl eq_refl)).
+  rewrite (nth_set_nth_neq r j i) by congruence. rewrite (nth_set_nth_neq r i j) by congruence.
+  apply set_nth_comm. congruence.
+Qed.
+
+Theorem fold_apply_perm accs : forall es es', Permutation es es' -> NoDup (known_slots es) ->
+  forall r, fold_left (apply_e accs) es r = fold_left (apply_e accs) es' r.
 Proof.
   induction 1 as [|e l l' Hp IH|a b l|l l' l'' H1 IH1 H2 IH2]; intros Hnd r.
   - reflexivity.
@@ -305,8 +314,8 @@ Proof.
     unfold known_slots. apply Permutation_flat_map. exact H1.
 Qed.
 
-Theorem fold_apply_unknown : forall es1 e es2 r, e_upd e = None ->
-  fold_left apply_e (es1 ++ e :: es2) r = fold_left apply_e (es1 ++ es2) r.
+Theorem fold_apply_unknown accs : forall es1 e es2 r, e_upd e = None ->
+  fold_left (apply_e accs) (es1 ++ e :: es2) r = fold_left (apply_e accs) (es1 ++ es2) r.
 Proof.
   intros es1 e es2 r He. rewrite !fold_left_app. cbn [fold_left]. unfold apply_e at 2. rewrite He. reflexivity.
 Qed.
@@ -364,14 +373,14 @@ Proof.
       exists (pw n). split; [reflexivity|apply pw_fits; unfold two64; cbn in Hx; lia].
     + f_equal. clear Hl. induction H as [|x xs Hx _ IHl]; cbn [map]; [reflexivity|]. rewrite <- IHl. f_equal. destruct x; try contradiction.
       rewrite N.mod_small by exact Hx. reflexivity.
-  - intros sk fs IH [n|z|b|bs|xs|vs] Hd H; try contradiction. cbn [has_ty] in H.
+  - intros sk accs fs IH [n|z|b|bs|xs|vs] Hd H; try contradiction. cbn [has_ty] in H.
     cbn [desc_ok] in Hd. apply andb_true_iff in Hd. destruct Hd as [Hd Hfo]. apply andb_true_iff in Hd. destruct Hd as [Hnd Hfl].
     cbn [enc_of tree_of]. exists (entries_of 0 fs vs). split; [|split; [|split]].
     + left. exists (pw (count_present fs vs)). rewrite flat_entries_of. split; [reflexivity|]. rewrite entries_length. apply pw_fits.
       pose proof (count_le_flen fs vs). unfold two64. lia.
     + apply (IH sk); auto. apply nodupb_NoDup. exact Hnd.
-    + pose proof (entries_fold sk fs vs [] H) as Hf. cbn [length app] in Hf. rewrite Hf. apply (mand_ok_ty sk fs vs H).
-    + pose proof (entries_fold sk fs vs [] H) as Hf. cbn [length app] in Hf. rewrite Hf. rewrite (proj2 (mand_ok_ty sk fs vs H)). reflexivity.
+    + pose proof (entries_fold accs sk fs vs [] H) as Hf. cbn [length app] in Hf. rewrite Hf. apply (mand_ok_ty sk fs vs H).
+    + pose proof (entries_fold accs sk fs vs [] H) as Hf. cbn [length app] in Hf. rewrite Hf. rewrite (proj2 (mand_ok_ty sk fs vs H)). reflexivity.
   - intros sk vs _ H _ i. destruct vs; constructor.
   - intros k p t IHt r IHr sk vs Hd H Hnd i. destruct vs as [|v vs]; [contradiction|].
     cbn [fields_ty] in H. destruct H as (Hk & Hv & Hr). cbn [fields_ok] in Hd. apply andb_true_iff in Hd. destruct Hd as [Hdt Hdr].
